@@ -11,14 +11,16 @@ import (
 
 // c08lock: lock-step validation of the real root Close / report loop against Model.RootClose.
 //
-// One root with K shards and K subscopes, subscope i living in shard i (found through the shard shim), the
-// root itself without metrics: a report pass walks the shards in slice order, so it visits the K counters
-// ("cells") in the order 0..K-1 the model assumes.  Threads: the real report-loop goroutine (adopted at its
-// first hook), 1-2 Close callers, 1-2 application threads recording (Inc(1)) and re-obtaining subscopes.
-// Every hook-to-hook transition of a thread is translated into events of the model and sent to the Lean
-// driver, which rejects traces the model does not allow and says which Close calls would block in wg.Wait();
-// the scheduler only resumes threads the model says can run.  At the end the model's reporter log must equal
-// the log of the real recording reporter, and the barrier clauses are evaluated on the model state.
+// One root with 1-4 shards and K subscopes (the root itself without metrics), one counter ("cell") per subscope.
+// A report pass walks the shards and, inside each, a Go map: the order in which it visits the cells is arbitrary and
+// differs from pass to pass; the harness observes it through the registry.visit hook and hands it to the model,
+// whose passes take the visiting order as an input (TallyProofs/Props/C08.lean holds for every order).
+// Threads: the real report-loop goroutine (adopted at its first hook), 1-2 Close callers, 1-2 application threads
+// recording (Inc(1)) and re-obtaining subscopes.  Every hook-to-hook transition of a thread is translated into
+// events of the model and sent to the Lean driver, which rejects traces the model does not allow and says which
+// Close calls would block in wg.Wait(); the scheduler only resumes threads the model says can run.  At the end the
+// model's reporter log must equal the log of the real recording reporter, and the barrier clauses are evaluated on
+// the model state.
 // Schedule points: loop.start/tick/exit, loop.run.post-closed-check, close.post-cas/post-done/
 // pre-reporter-close, before every reporter call of a pass (counter.deliver) and inside Flush (rep.flush).
 
@@ -84,11 +86,11 @@ func runC08Lock(c *Ctx, r *Rng) {
 		return false
 	}
 	var vmu sync.Mutex
-	lastVisit := ""
+	var visits []string // registry keys visited since the last scheduler step
 	s.Observe = func(l, a string) {
 		if l == "registry.visit" {
 			vmu.Lock()
-			lastVisit = a
+			visits = append(visits, a)
 			vmu.Unlock()
 		}
 	}
@@ -98,7 +100,7 @@ func runC08Lock(c *Ctx, r *Rng) {
 		loop = s.Expect("loop", "loop.start")
 		interval = 300 * time.Microsecond
 	}
-	w := newWorld(cached, interval, uint(k), closable)
+	w := newWorld(cached, interval, uint(r.Range(1, 4)), closable)
 	if withLoop && !s.WaitAdopted(loop) {
 		c.Cov.Fail(Failure{Kind: "crash", Clause: "adopt", Signature: "c08-loop-not-adopted"})
 		s.Finish()
@@ -110,24 +112,12 @@ func runC08Lock(c *Ctx, r *Rng) {
 			hook("rep.flush", "")
 		}
 	}
-	// subscope i in shard i
 	names := make([]string, k)
 	keys := map[string]int{}
 	handles := make([]tally.Counter, k)
 	for i := 0; i < k; i++ {
-		for j := 0; ; j++ {
-			n := fmt.Sprintf("s%d", j)
-			taken := false
-			for _, m := range names[:i] {
-				taken = taken || m == n
-			}
-			key := tally.VerifKeyForPrefixedStringMaps(n, nil)
-			if !taken && tally.VerifShardOf(w.root, key) == i {
-				names[i] = n
-				keys[key] = i
-				break
-			}
-		}
+		names[i] = fmt.Sprintf("s%d", i)
+		keys[tally.VerifKeyForPrefixedStringMaps(names[i], nil)] = i
 		handles[i] = w.root.SubScope(names[i]).Counter("c")
 	}
 	b := func(x bool) int {
@@ -189,13 +179,24 @@ func runC08Lock(c *Ctx, r *Rng) {
 	if loop != nil {
 		all = append(append([]*Thr{}, thrs...), loop)
 	}
-	cellOfVisit := func() int {
+	// the cells visited since the last step, in order, as the driver's order token ("-" = none); the last one is the
+	// cell whose delivery the thread is parked at, if it is parked at one
+	takeVisits := func() (tok string, last int) {
 		vmu.Lock()
 		defer vmu.Unlock()
-		if i, ok := keys[lastVisit]; ok {
-			return i
+		var cs []string
+		last = -1
+		for _, key := range visits {
+			if i, ok := keys[key]; ok {
+				cs = append(cs, fmt.Sprint(i))
+				last = i
+			}
 		}
-		return -1
+		visits = nil
+		if len(cs) == 0 {
+			return "-", -1
+		}
+		return strings.Join(cs, ","), last
 	}
 	closerMoved := func(t *Thr, ci int, from, to string) {
 		switch to {
@@ -204,9 +205,11 @@ func runC08Lock(c *Ctx, r *Rng) {
 		case "close.post-done":
 			say(fmt.Sprintf("adv closer %d doneClosed", ci))
 		case "counter.deliver":
-			say(fmt.Sprintf("adv closer %d deliver:%d", ci, cellOfVisit()))
+			tok, last := takeVisits()
+			say(fmt.Sprintf("adv closer %d deliver:%d %s", ci, last, tok))
 		case "rep.flush":
-			say(fmt.Sprintf("adv closer %d flush", ci))
+			tok, _ := takeVisits()
+			say(fmt.Sprintf("adv closer %d flush %s", ci, tok))
 			pmu.Lock()
 			inPurge[t.Name] = true
 			pmu.Unlock()
@@ -326,9 +329,11 @@ func runC08Lock(c *Ctx, r *Rng) {
 			case "loop.run.post-closed-check":
 				say("adv loop begin")
 			case "counter.deliver":
-				say(fmt.Sprintf("adv loop deliver:%d", cellOfVisit()))
+				tok, last := takeVisits()
+				say(fmt.Sprintf("adv loop deliver:%d %s", last, tok))
 			case "rep.flush":
-				say("adv loop flush")
+				tok, _ := takeVisits()
+				say("adv loop flush " + tok)
 			}
 			continue
 		}
@@ -403,7 +408,7 @@ func runC08Lock(c *Ctx, r *Rng) {
 }
 
 func suiteC08Lock(c *Ctx) {
-	c.Cov.Rule = "lock-step: every hook-to-hook transition of the real report-loop goroutine, of 1-2 Close callers and of 1-2 application threads (Inc, SubScope) on a root with K=1-3 shards / subscopes (subscope i in shard i, so a pass visits the cells in the model's order), plain and cached, closable or not, with and without interval, is translated into Model.RootClose events and validated by the Lean driver (reject = the implementation left the model); the model decides which Close call may run (wg.Wait); at the end the model's reporter log must equal the real reporter's log and the barrier clauses are evaluated on the model state; sampled schedules from one PRNG; nontrivial = a pass of the loop was under way at some switch, or two Close callers, or no loop; distinct by trace"
+	c.Cov.Rule = "lock-step: every hook-to-hook transition of the real report-loop goroutine, of 1-2 Close callers and of 1-2 application threads (Inc, SubScope) on a root with 1-4 shards and K=1-3 subscopes (the order in which each pass visits them is observed and handed to the model), plain and cached, closable or not, with and without interval, is translated into Model.RootClose events and validated by the Lean driver (reject = the implementation left the model); the model decides which Close call may run (wg.Wait); at the end the model's reporter log must equal the real reporter's log and the barrier clauses are evaluated on the model state; sampled schedules from one PRNG; nontrivial = a pass of the loop was under way at some switch, or two Close callers, or no loop; distinct by trace"
 	n := c.N(250, 5000)
 	for i := 0; i < n; i++ {
 		runC08Lock(c, c.Rng.Fork())
